@@ -649,6 +649,23 @@ def py_materialise(path, es):
             py_materialise(p, e[2])
 
 
+PACKAGE_FILE_NAMES = (b"Makefile", b"BUILD.json", b"BUILD.yaml", b"BUILD.yml", b"BUILD.star", b"BUILD.bzl", b"BUILD.pkl")
+
+
+def cli_safe(tree):
+    """For the CLI tie only: an entry of the OUTPUT directory must not be named like a package file.  grog's loader walks the whole
+    workspace, outputs included, and (rightly) reports a load error for e.g. a dangling symlink named Makefile: that is the loader's
+    subject (C16), not a restore verdict.  The in-process handler round trips keep such names."""
+    res = []
+    for e in tree:
+        name = e[1] + b"_" if (e[1] in PACKAGE_FILE_NAMES or b".grog." in e[1]) else e[1]
+        if e[0] == "d":
+            res.append(("d", name, cli_safe(e[2])))
+        else:
+            res.append((e[0], name) + tuple(e[2:]))
+    return res
+
+
 def cli_run(tier, r):
     """runs in a thread next to the in-process tie; touches nothing but its own scratch directory"""
     try:
@@ -660,8 +677,8 @@ def cli_run(tier, r):
     jobs = []
     for i in range(n):
         state = STATES[i % len(STATES)]
-        tree = gen_tree(r, budget=20) if i >= 2 else [("f", b"tool", b"#!/bin/sh\n", 0o755), ("d", b"empty", []), ("l", b"ln", b"tool"),
-                                                      ("d", b"s", [("f", b"a b", b"", 0o600)])]
+        tree = cli_safe(gen_tree(r, budget=20)) if i >= 2 else [("f", b"tool", b"#!/bin/sh\n", 0o755), ("d", b"empty", []), ("l", b"ln", b"tool"),
+                                                                ("d", b"s", [("f", b"a b", b"", 0o600)])]
         jobs.append(("dir", i, state, tree, perturb(r, tree, state)))
     jobs.append(("file", n, "absent", None, None))
     jobs.append(("file", n + 1, "noparent", None, None))
